@@ -563,7 +563,7 @@ def Ctx.opSetSubC (c : Ctx) (a : Actor) (tn : TName) (viaChn : Bool) (target : U
     | some p =>
       if p.isChan ∧ tg = a.uid then
         -- a reader changes the own mode
-        let (c, t, r) := c.readerResub t a p mode .absent false
+        let (c, t, r) := c.readerResub t a p mode .absent false viaChn
         let c := match r with
           | none => c
           | some res =>
